@@ -191,9 +191,13 @@ def main():
     # every chunk twice: with the crate's default features, and with every feature that does not need a codec for the field types
     # (generated setters, Debug on the diff types, the other hasher, the extra assertions): the cfg-dependent bounds and templates
     # must accept the same declarations (C16 x C17)
-    configs = [(None, 'dc_main', 'default features'), (['dbg', 'gs', 'rh', 'da'], 'dc_feat', 'features debug_diffs + generated_setters + rustc_hash + debug_asserts')]
-    for k, ch in enumerate(chunks):
+    configs = [(None, 'dc_main', 'default features'), (['dbg', 'gs', 'rh', 'da'], 'dc_feat', 'features debug_diffs + generated_setters + rustc_hash + debug_asserts'),
+               (['sd', 'dbg'], 'dc_serde', 'features serde + debug_diffs')]
+    for k, ch0 in enumerate(chunks):
       for cfeat, ctag, cname in configs:
+        # serde: references cannot be deserialized, and serde has no impl for arrays of a const-generic length
+        ch = [d_ for d_ in ch0 if not ({'lifetime', 'const_generic'} & set(d_[2]))] if (cfeat and 'sd' in cfeat) else ch0
+        if not ch: continue
         tmp = Result(PROP, a.tier, a.seed)
         exe = build_decls(tmp, ch, ctag, features=cfeat, target_dir=os.path.join(WORK, 'target_' + ctag) if cfeat else None)
         if not exe:
@@ -209,7 +213,7 @@ def main():
         for l in lines:
             p = l.split(' ', 2)
             if cfeat is None: results[p[0]] = p[1]
-            dist['declarations_run_' + ('with_features' if cfeat else 'default')] = dist.get('declarations_run_' + ('with_features' if cfeat else 'default'), 0) + 1
+            dk = 'declarations_run_' + ('default' if not cfeat else 'serde' if 'sd' in cfeat else 'with_features'); dist[dk] = dist.get(dk, 0) + 1
             if p[1] != 'OK':
                 res.oracle_fail.append({'group': 'declaration', 'case': srcs.get(p[0], p[0]), 'what': f"ORACLE-FAIL declaration {p[0]} ({cname}): {p[1]} {p[2][:300] if len(p) > 2 else ''}", 'signature': f"round trip / frame fails: {p[1]}"})
     # generic declarations over codec-encodable field types, under every feature at once and under the codecs alone
